@@ -9,8 +9,10 @@ import (
 	"time"
 
 	"github.com/Comcast/rulio/core"
+	"github.com/Comcast/rulio/cron"
 
 	"verif/sim/h"
+	"verif/sim/hs"
 )
 
 // C13 — no input can crash, hang or poison a location.  Malformed inputs are
@@ -194,6 +196,10 @@ func execC13(t *testing.T, plan *h.Plan, trace bool) *h.Result {
 		h.ResetParams()
 		back := h.NewBackend("mem")
 		eng := h.NewCoreEngine(state, back, h.QuietControl())
+		// the state hooks a System installs (cron registration of scheduled
+		// rules): they are one more place where an input can be refused late
+		sc := hs.NewSimCron(true)
+		eng.OnNewState = func(ctx *core.Context, name string, st core.State) { cron.AddHooks(ctx, sc, st) }
 		loc := eng.Loc("L")
 		ctx := func() *core.Context { return h.NewCtx(h.Prot{}) }
 		guard := func(what string, f func()) (panicked bool) {
@@ -335,6 +341,16 @@ func execC13(t *testing.T, plan *h.Plan, trace bool) *h.Result {
 				// event matches the base `when`; errors are fine, panics and
 				// hangs are not.
 				guard("hostile-rule-event", func() { loc.ProcessEvent(ctx(), core.Map{"a": "x", "b": "y"}) })
+			}
+			if err != nil && !panicked {
+				// the input was refused: it must have left nothing behind.  The event
+				// that the base rules' `when` asks for reaches the bystander rule and
+				// whatever else claims that pattern; it must be processed.
+				guard("after-refusal-event", func() {
+					if _, cond := loc.ProcessEvent(ctx(), core.Map{"a": "x", "b": "y"}); cond != nil {
+						fail("poisoned", "event-after-refused-input", "after the refused %s, an ordinary event matching the same pattern fails: %s", desc, cond.Msg)
+					}
+				})
 			}
 			canaryDisabled = op.K == "propfact" && op.Id == "canaryrule" && op.S == "disabled" && m["v"] == true && err == nil
 			canary(desc)
